@@ -15,12 +15,21 @@ func TypePriority(rr dns.RR) uint32 {
 	switch v := rr.(type) {
 	case *dns.NULL:
 		// first two bytes represent the order
+		if len(v.Data) < 2 {
+			break
+		}
 		return 10000 + uint32(binary.LittleEndian.Uint16([]byte(v.Data[0:2])))
 	case *dns.PrivateRR:
 		// first two bytes represent the order
+		if v.Data == nil || len(v.Data.String()) < 2 {
+			break
+		}
 		return 20000 + uint32(binary.LittleEndian.Uint16([]byte(v.Data.String()[0:2])))
 	case *dns.TXT:
 		// First two characters represent the byte order
+		if len(v.Txt) == 0 || len(v.Txt[0]) < 2 {
+			break
+		}
 		i1 := enc.Base32CharToInt(v.Txt[0][0])
 		i2 := enc.Base32CharToInt(v.Txt[0][1])
 		return 30000 + uint32(i1+i2*32)
@@ -32,14 +41,23 @@ func TypePriority(rr dns.RR) uint32 {
 		return 50000 + uint32(v.Priority)
 	case *dns.CNAME:
 		// First two characters represent the order
+		if len(v.Target) < 2 {
+			break
+		}
 		i1 := enc.Base32CharToInt(v.Target[0])
 		i2 := enc.Base32CharToInt(v.Target[1])
 		return 60000 + uint32(i1+i2*32)
 	case *dns.AAAA:
 		// First two bytes represent the order
+		if len(v.AAAA) < 2 {
+			break
+		}
 		return 70000 + uint32(binary.LittleEndian.Uint16(v.AAAA[0:2]))
 	case *dns.A:
 		// First byte represent the order
+		if len(v.A) < 1 {
+			break
+		}
 		return 80000 + uint32(v.A[0])
 	}
 
@@ -398,37 +416,59 @@ func UnwrapDnsResponse(q *dns.Msg, domain string) []byte {
 		return TypePriority(answers[i]) < TypePriority(answers[j])
 	})
 
+	// Answers come from the network: records that are too short to carry their order tag, or whose
+	// host name is not under the tunnel domain, carry no tunnel data and are skipped.
+	stripDomain := func(name string) (string, bool) {
+		cut := len(name) - len(domain) - 2
+		if cut < 0 {
+			return "", false
+		}
+		return name[0:cut], true
+	}
+
 	for _, rr := range answers {
 		switch v := rr.(type) {
 		case *dns.NULL:
 			// Remove first two bytes
-			resp = append(resp, []byte(v.Data[2:])...)
+			if len(v.Data) >= 2 {
+				resp = append(resp, []byte(v.Data[2:])...)
+			}
 		case *dns.PrivateRR:
 			// Remove first two bytes
-			resp = append(resp, []byte(v.Data.String()[2:])...)
+			if v.Data != nil && len(v.Data.String()) >= 2 {
+				resp = append(resp, []byte(v.Data.String()[2:])...)
+			}
 		case *dns.TXT:
-			resp = append(resp, []byte(strings.Join(v.Txt, "")[2:])...)
+			if txt := strings.Join(v.Txt, ""); len(txt) >= 2 {
+				resp = append(resp, []byte(txt[2:])...)
+			}
 		case *dns.MX:
-			data := v.Mx                             // Nothing to remove, Preference takes care of it
-			data = data[0 : len(data)-len(domain)-2] // remove domain
-			data = Undotify(data)                    // Remove dots
-			resp = append(resp, data...)
+			// Nothing to remove, Preference takes care of it
+			if data, ok := stripDomain(v.Mx); ok { // remove domain
+				resp = append(resp, Undotify(data)...) // Remove dots
+			}
 		case *dns.SRV:
-			data := v.Target                         // Nothing to remove, Priority takes care of it
-			data = data[0 : len(data)-len(domain)-2] // remove domain
-			data = Undotify(data)                    // Remove dots
-			resp = append(resp, data...)
+			// Nothing to remove, Priority takes care of it
+			if data, ok := stripDomain(v.Target); ok { // remove domain
+				resp = append(resp, Undotify(data)...) // Remove dots
+			}
 		case *dns.CNAME:
-			data := v.Target[2:]                     // Remove first two characters
-			data = data[0 : len(data)-len(domain)-2] // remove domain
-			data = Undotify(data)                    // Remove dots
-			resp = append(resp, data...)
+			if len(v.Target) >= 2 {
+				// Remove first two characters, then the domain
+				if data, ok := stripDomain(v.Target[2:]); ok {
+					resp = append(resp, Undotify(data)...) // Remove dots
+				}
+			}
 		case *dns.AAAA:
 			// Remove first two bytes
-			resp = append(resp, v.AAAA[2:]...)
+			if len(v.AAAA) >= 2 {
+				resp = append(resp, v.AAAA[2:]...)
+			}
 		case *dns.A:
 			// Remove first byte
-			resp = append(resp, v.A[1:]...)
+			if len(v.A) >= 1 {
+				resp = append(resp, v.A[1:]...)
+			}
 		}
 	}
 
